@@ -1150,9 +1150,11 @@ def pair_trace(beh, root):
 
     try:
         evs = [{"fn": "cache", "tid": beh["tid"], "k": "init",
-                "cfg": {"p1": default_cfg("d1"), "p2": default_cfg("d2")}, "s": slots(), "net": {"d1": [], "d2": []}}]
-        for p, d in (("p1", "d1"), ("p2", "d2")):
-            e = one_load(names[d], names[d], "remote", False, "fresh" if p == "p1" else "after", home, fake_home)
+                "cfg": {"p1": default_cfg("d1"), "p2": default_cfg("d2"), "p3": default_cfg("d2")}, "s": slots(), "net": {"d1": [], "d2": []}}]
+        # p3: the second dataset once more in the same process, after the caller has overwritten in place what an earlier
+        # (cache-served) load handed out - "a later load returns exactly that data"
+        for p, d in (("p1", "d1"), ("p2", "d2"), ("p3", "d2")):
+            e = one_load(names[d], names[d], "remote", False, {"p1": "fresh", "p2": "after", "p3": "after_edit"}[p], home, fake_home)
             if e["outcome"] == "ok":
                 w = e["ret"][1]
                 r = ["data", whose.get(w, "?"), "good" if w in whose else "other"]
@@ -1160,7 +1162,7 @@ def pair_trace(beh, root):
                 r = ["exc", e["outcome"], ""]
             evs.append({"fn": "cache", "tid": beh["tid"], "k": "call", "p": p, "g": "start",
                         "o": "ok" if e["urls"] else "", "pc": "done", "s": slots(),
-                        "t": {"p1": [0, "absent", "absent"], "p2": [0, "absent", "absent"]},
+                        "t": {"p1": [0, "absent", "absent"], "p2": [0, "absent", "absent"], "p3": [0, "absent", "absent"]},
                         "x": max(0, len(e["urls"]) - 1), "r": r})
         return evs
     finally:
